@@ -234,6 +234,15 @@ main (int argc, char **argv)
                  static_cast<unsigned long long> (g.tot_armed[k]), sim::ev_name (k),
                  static_cast<unsigned long long> (g.tot_fired[k]), sim::ev_name (k),
                  static_cast<unsigned long long> (g.tot_events[k]));
+  for (int k = 0; k < sim::K_NKINDS; ++k)
+    if (g.ops_by_kind[k] != 0)
+    {
+      std::printf (" op_%s=%llu", sim::op_name (k), static_cast<unsigned long long> (g.ops_by_kind[k]));
+      for (int e = 0; e < sim::EV_NKINDS; ++e)
+        if (g.fired_by_op[k][e] != 0)
+          std::printf (" fo_%s_%s=%llu", sim::op_name (k), sim::ev_name (e),
+                       static_cast<unsigned long long> (g.fired_by_op[k][e]));
+    }
   for (std::size_t i = 0; i < tt.known_hits.size (); ++i)
     std::printf (" known_%lu=%u", static_cast<unsigned long> (i), tt.known_hits[i]);
   std::printf ("\n");
